@@ -581,6 +581,12 @@ TABLE = {
     ('<blitter::MaskSuperBlitter as blitter::RasterBlitter>::blit_span', 'index', 'call:index_mut'): (6, 'guard', 'b[0], b[len-1] only when len != 0', 'super_ends'),
     ('<blitter::ShaderBlendBlitter as blitter::Blitter>::blit_span', 'slice', 'self.dest[RangeFrom]'): (1, 'else', 'start inside dest: rect clipped to dest_bounds (R02.1), index form (R02.6)'),
     ('<blitter::ShaderBlendBlitter as blitter::Blitter>::blit_span', 'slice', 'self.tmp[RangeTo]'): (1, 'range', 'count <= tmp.len() = surface width; a layer wider than the surface is not excluded (DESIGN C07)'),
+    # the sibling span blitters hold the same `tmp` (allocated with the surface width by the same code) and receive the same
+    # spans: slicing it to the span length is the audited access of ShaderBlendBlitter made by a sibling
+    ('<blitter::ShaderBlendMaskBlitter as blitter::Blitter>::blit_span', 'slice', 'self.tmp[RangeTo]'): (1, 'range', 'as ShaderBlendBlitter: count <= tmp.len() = surface width'),
+    ('<blitter::ShaderClipBlendMaskBlitter as blitter::Blitter>::blit_span', 'slice', 'self.tmp[RangeTo]'): (1, 'range', 'as ShaderBlendBlitter: count <= tmp.len() = surface width'),
+    ('<blitter::ShaderMaskBlitter as blitter::Blitter>::blit_span', 'slice', 'self.tmp[RangeTo]'): (1, 'range', 'as ShaderBlendBlitter: count <= tmp.len() = surface width'),
+    ('<blitter::ShaderClipMaskBlitter as blitter::Blitter>::blit_span', 'slice', 'self.tmp[RangeTo]'): (1, 'range', 'as ShaderBlendBlitter: count <= tmp.len() = surface width'),
     ('<blitter::ShaderBlendMaskBlitter as blitter::Blitter>::blit_span', 'slice', 'self.dest[RangeFrom]'): (1, 'else', 'R02.1/R02.6'),
     ('<blitter::ShaderClipBlendMaskBlitter as blitter::Blitter>::blit_span', 'slice', 'self.dest[RangeFrom]'): (1, 'else', 'R02.1/R02.6'),
     ('<blitter::ShaderClipBlendMaskBlitter as blitter::Blitter>::blit_span', 'slice', 'self.clip[RangeFrom]'): (1, 'else', 'absolute clip index inside the full-surface mask (R02.6, R05.5)'),
